@@ -605,6 +605,13 @@ func runItemBackoff(t *testing.T, prop string, c *C09Case, trace bool) *Outcome 
 			out.violate(prop+"/runtime-stopped", "runtime-stopped", "Runtime.Run returned: %v", w.RunErr)
 			return
 		}
+		for _, id := range sortedKeys(sq.kinds) {
+			for _, k := range sq.kinds[id] {
+				if k != "ok" {
+					out.fault("reconcile-outcome:" + k)
+				}
+			}
+		}
 		// every script must have been played to its end: a failing item is retried until it succeeds
 		var firstGaps, deepGaps []time.Duration
 		var firstDesc, deepDesc []string
